@@ -7,7 +7,7 @@
  *                        library, i.e. jccolor.c/jccolext.c or its SIMD replacement) run on
  *                        buffer <list 1> through row pointers bottomup?(h-1-i)*pitch:i*pitch
  *                        -> "ok plane0 | plane1 | plane2"
- *     op = y2c g2c r2c y2g : the decompressor's colour deconverter (jdcolor.c/jdcolext.c or
+ *     op = y2c g2c r2c y2g r2g : the decompressor's colour deconverter (jdcolor.c/jdcolext.c or
  *                        SIMD) run on planes <list 1..3> writing into buffer <last list>
  *                        -> "ok buffer"
  *     op = m1 m2        : merged upsampling h2v1 / h2v2 (jdmerge.c/jdmrgext.c or SIMD)
@@ -213,7 +213,7 @@ static void kernel_decompress(const char *op, int bits, int cs, int w, int h, in
   struct jpeg_decompress_struct d; struct jpeg_error_mgr e;
   unsigned char *jpg = NULL; unsigned long jlen = 0;
   int merged = (op[0] == 'm'), v2 = !strcmp(op, "m2");
-  int jcs = (!strcmp(op, "g2c")) ? JCS_GRAYSCALE : (!strcmp(op, "r2c")) ? JCS_RGB : JCS_YCbCr;
+  int jcs = (!strcmp(op, "g2c")) ? JCS_GRAYSCALE : (!strcmp(op, "r2c") || !strcmp(op, "r2g")) ? JCS_RGB : JCS_YCbCr;
   int nin = (jcs == JCS_GRAYSCALE) ? 1 : 3, ci, i, n;
   void *pl[3] = { NULL, NULL, NULL }; void **prow[3] = { NULL, NULL, NULL }; void ***img = NULL;
   void *buf = NULL; void **outrows = NULL;
